@@ -437,15 +437,18 @@ pub fn run_case(p: &Program, cfg: &Config, opts: &CaseOpts, rng: &mut Rng) -> Ca
                         if !c.outcomes.contains_key(out) {
                             let mut known = None;
                             if opts.attribute {
+                                let has_await = p.threads.iter().flatten().any(|o| matches!(o.inner(), Op::Await { .. }));
                                 let mut dcfg = opts.o1.clone().unwrap();
                                 dcfg.rmw_reads_mo_max_only = true;
+                                dcfg.spinner_resumes_last = has_await;
                                 let target = parse_outcome(p, out);
                                 if outcome_reachable(p, &dcfg, &target, 3_000_000) == Some(false) {
                                     known = Some("K5-rmw-reads-only-latest-store".to_string());
                                 }
-                                if known.is_none() && p.threads.iter().flatten().any(|o| matches!(o, Op::AwaitY { .. })) {
+                                if known.is_none() && p.threads.iter().flatten().any(|o| matches!(o.inner(), Op::AwaitY { .. } | Op::Await { .. })) {
                                     let mut dcfg = opts.o1.clone().unwrap();
                                     dcfg.yield_prunes_seen = true;
+                                    dcfg.spinner_resumes_last = has_await;
                                     if outcome_reachable(p, &dcfg, &target, 3_000_000) == Some(false) {
                                         known = Some("K9-yield-prunes-stale-rereads".to_string());
                                     }
@@ -453,6 +456,7 @@ pub fn run_case(p: &Program, cfg: &Config, opts: &CaseOpts, rng: &mut Rng) -> Ca
                                 if known.is_none() {
                                     let mut dcfg = opts.o1.clone().unwrap();
                                     dcfg.sc_load_skips_overwritten_sc_store = true;
+                                    dcfg.spinner_resumes_last = has_await;
                                     if outcome_reachable(p, &dcfg, &target, 3_000_000) == Some(false) {
                                         known = Some("K8-seqcst-load-assumes-execution-order".to_string());
                                     }
